@@ -33,6 +33,10 @@ import (
 //                   x placement {data origin, behind an odd-sized allocation};
 //                   written through the creating mapping, resolved through a second
 //                   ShmAttach mapping.
+//   shm-column-orders  schemas composed column by column: every ordered sequence of 1..3
+//                   (thorough 1..4) columns over {int64, utf8, struct, dict<int8>, dict<int16>,
+//                   struct<dict>, list<dict>} x rows {0,1,5} x writer — every relative order
+//                   and mix of plain / top-level-dictionary / nested-dictionary columns.
 //   shm-twin-sequence  two batches in a row on one segment whose schemas differ only in
 //                   field / schema / child metadata or list element name ("fingerprint
 //                   twins"), every ordered pair incl. the same schema twice (same and
@@ -117,6 +121,66 @@ func vf35Shapes() []vf35Shape {
 		)
 	}
 	return shapes
+}
+
+// vf35ColumnKinds is the column alphabet of the composed schemas. class: "plain",
+// "top" (the column itself is a dictionary) or "nested" (a dictionary below the
+// top level).
+type vf35Kind struct {
+	name, class string
+	col         vf35Col
+}
+
+func vf35ColumnKinds() []vf35Kind {
+	i8, i16 := arrow.PrimitiveTypes.Int8, arrow.PrimitiveTypes.Int16
+	str := arrow.BinaryTypes.String
+	dstr := vf35Dict(i8, str)
+	return []vf35Kind{
+		{"int64", "plain", vf35Col{dt: arrow.PrimitiveTypes.Int64, vals: []string{`1`, `-2`, `3`}}},
+		{"utf8", "plain", vf35Col{dt: str, nullable: true, vals: []string{`"a"`, `null`, `"bc"`}}},
+		{"struct", "plain", vf35Col{dt: arrow.StructOf(arrow.Field{Name: "a", Type: arrow.PrimitiveTypes.Int64}), vals: []string{`{"a":1}`, `{"a":2}`}}},
+		{"dict", "top", vf35Col{dt: dstr, nullable: true, vals: []string{`"red"`, `"green"`, `"red"`, `null`}}},
+		{"dict16", "top", vf35Col{dt: vf35Dict(i16, str), vals: []string{`"x"`, `"y"`, `"y"`}}},
+		{"struct-dict", "nested", vf35Col{dt: arrow.StructOf(arrow.Field{Name: "state", Type: dstr, Nullable: true}), nullable: true,
+			vals: []string{`{"state":"on"}`, `{"state":"off"}`, `{"state":null}`, `{"state":"on"}`}}},
+		{"list-dict", "nested", vf35Col{dt: arrow.ListOf(dstr), nullable: true, vals: []string{`["a","b"]`, `["a"]`, `[]`, `null`}}},
+	}
+}
+
+// vf35Compose builds a shape from a column sequence; its family (used in
+// signatures) is derived from the classes alone: which dictionary classes occur
+// and which of them comes first.
+func vf35Compose(kinds []vf35Kind, picked []int) vf35Shape {
+	sh := vf35Shape{}
+	var names []string
+	first, top, nested := "", false, false
+	for i, k := range picked {
+		c := kinds[k].col
+		c.name = fmt.Sprintf("c%d", i)
+		sh.cols = append(sh.cols, c)
+		names = append(names, kinds[k].name)
+		switch kinds[k].class {
+		case "top":
+			top = true
+		case "nested":
+			nested = true
+		}
+		if first == "" && kinds[k].class != "plain" {
+			first = kinds[k].class
+		}
+	}
+	sh.name = "[" + strings.Join(names, ",") + "]"
+	switch {
+	case top && nested:
+		sh.family = "dict-mixed:" + first + "-first"
+	case top:
+		sh.family = "dict-top"
+	case nested:
+		sh.family = "dict-nested"
+	default:
+		sh.family = "plain"
+	}
+	return sh
 }
 
 // vf35TwinGroup is a set of schemas that differ only in what an Arrow schema
@@ -476,14 +540,10 @@ func TestVerif_C35(t *testing.T) {
 	}
 	written, execs := int64(0), int64(0)
 
-	venum.Explore(t, venum.Cfg{Name: "shm-roundtrip", Shardable: true}, func(x *venum.X) {
+	// roundtrip writes one batch of the shape and reads it back (the oracle of
+	// the shm-roundtrip and shm-column-orders spaces).
+	roundtrip := func(x *venum.X, sh vf35Shape, rows int, writer string, meta []string, wire, pre bool) {
 		execs++
-		sh := shapes[x.Choose(len(shapes), "shape")]
-		rows := rowsAlpha[x.Choose(len(rowsAlpha), "rows")]
-		writer := x.Pick("writer", "MaybeWriteToShm", "AllocateAndWrite")
-		meta := metas[x.Choose(len(metas), "meta")]
-		wire := x.Bool("pointer-through-ipc")
-		pre := x.Bool("behind-odd-allocation")
 		pool.rewind(64 << 10)
 		seg, att := pool.seg, pool.att
 		if pre {
@@ -576,6 +636,36 @@ func TestVerif_C35(t *testing.T) {
 		x.Outcome("%s %s rel=%v@%v meta=%s", vfSchemaString(res.Schema()), gotJSON, rel, int64(relOff)-ShmHeaderSize,
 			strings.ReplaceAll(strings.Join(gotMeta, "|"), att.Name(), "<seg>"))
 		res.Release()
+	}
+
+	venum.Explore(t, venum.Cfg{Name: "shm-roundtrip", Shardable: true}, func(x *venum.X) {
+		sh := shapes[x.Choose(len(shapes), "shape")]
+		rows := rowsAlpha[x.Choose(len(rowsAlpha), "rows")]
+		writer := x.Pick("writer", "MaybeWriteToShm", "AllocateAndWrite")
+		meta := metas[x.Choose(len(metas), "meta")]
+		wire := x.Bool("pointer-through-ipc")
+		pre := x.Bool("behind-odd-allocation")
+		roundtrip(x, sh, rows, writer, meta, wire, pre)
+	})
+
+	// Schemas composed column by column: every ordered sequence of 1..3 (thorough
+	// 1..4) columns over the column-kind alphabet, so every relative ORDER and
+	// every mix of plain / top-level-dictionary / nested-dictionary columns occurs
+	// (the writer and the reader each classify the schema to pick a layout).
+	kinds := vf35ColumnKinds()
+	maxCols := venum.QT(3, 4)
+	venum.Explore(t, venum.Cfg{Name: "shm-column-orders", Shardable: true}, func(x *venum.X) {
+		picked := []int{x.Choose(len(kinds), "col0")}
+		for len(picked) < maxCols {
+			nx := x.Choose(len(kinds)+1, fmt.Sprintf("col%d", len(picked)))
+			if nx == 0 {
+				break
+			}
+			picked = append(picked, nx-1)
+		}
+		rows := rowsAlpha[x.Choose(len(rowsAlpha), "rows")]
+		writer := x.Pick("writer", "MaybeWriteToShm", "AllocateAndWrite")
+		roundtrip(x, vf35Compose(kinds, picked), rows, writer, nil, true, false)
 	})
 	if execs > 0 && written == 0 && os.Getenv("VERIF_REPLAY") == "" {
 		venum.EngineError("C35: no batch was ever written to the segment")
